@@ -7,7 +7,8 @@ BOUNDS = ("the C01 statement corpus with the value symbolic over the WHOLE spell
           "<$0100..<$FFFF, [$12], 70000, -129..-99999 are inside), plus the mutation grammar: modes the instruction "
           "lacks, wrong/unknown registers, doubled/missing separators and brackets, stray prefixes (props/stmt.py "
           "invalid_corpus); accepted => exactly one datasheet instruction of that mnemonic consuming all bytes, "
-          "byte count == listing size, and the statement is valid per Appendix A")
+          "byte count == listing size, and the statement is valid per Appendix A; memory operands (plain, <, >, [ ]) behind "
+          "a SETDP with a symbolic page: one complete instruction, byte count == listing size == address advance")
 OUTSIDE = "random strings over the operand alphabet (only the enumerated mutation grammar); letter-case variants of register names"
 ASSUMPTIONS = ["Appendix A of DESIGN.md fixes validity"]
 
@@ -24,8 +25,38 @@ def make(sh):
     return Ob("C12:" + sh.sid, body, timeout=40, tags=sh.tags(), text=sh.text())
 
 
+def make_setdp(m, opfmt, vcls):
+    """a memory operand behind a SETDP with a symbolic page: whatever the assumed direct page does to the choice of the
+    form, an accepted statement is one complete instruction of that mnemonic whose byte count is the listing size"""
+    from vlib.harness import assemble, stmt_bytes
+
+    def body(ctx):
+        td, dp = ctx.lit("H2", "dp")
+        tv, v = ctx.lit(vcls, "v")
+        lines = [" SETDP %s" % td, " %s %s" % (m, opfmt % tv), " NOP"]
+        out = assemble(lines)
+        info = {"lines": lines, "outcome": out.describe()}
+        if out.kind != "ok":
+            return True, info
+        st = out.program.statements[1]
+        b = stmt_bytes(st)
+        info["bytes"], info["size"] = b, st.code_pkg.size
+        d = stmt.decode(b)
+        ok = d is not None and d.length == len(b) and d.op == stmt.canonical(m) and len(b) == st.code_pkg.size
+        ok = ok and out.program.statements[2].code_pkg.address.int == st.code_pkg.address.int + len(b)
+        if ok:
+            return True, info
+        return ctx.known(PID, {"m": m, "form": "setdp", "raw": opfmt}, {"kind": "ok", "b": b, "size": st.code_pkg.size, "v": v, "dp": dp}), info
+    return Ob("C12:setdp:%s:%s:%s" % (m, opfmt % "v", vcls), body, timeout=60, tags={"m": m, "form": "setdp"}, text="SETDP <H2> / %s %s" % (m, opfmt % ("<%s>" % vcls)))
+
+
 def obligations(tier, seed):
-    return [make(sh) for sh in stmt.corpus(tier, seed) + stmt.invalid_corpus(tier, seed)]
+    obs = [make(sh) for sh in stmt.corpus(tier, seed) + stmt.invalid_corpus(tier, seed)]
+    for m in (["LDA", "JMP", "STX", "LDY"] if tier == "quick" else ["LDA", "JMP", "STX", "LDY", "INC", "CMPU", "JSR", "STB", "CLR"]):
+        for opfmt in ("<%s", "%s", ">%s", "[%s]"):
+            for vcls in ("H4", "H2"):
+                obs.append(make_setdp(m, opfmt, vcls))
+    return obs
 
 
 def gates(tier, seed):
